@@ -307,6 +307,10 @@ func defaultPure(e *Event) bool {
 	if e.Kind != EvCall || e.FnTerm != nil {
 		return false
 	}
+	// diagnostics (printing, logging) are not effects any property speaks about
+	if strings.HasPrefix(e.Callee, "fmt.") || strings.HasPrefix(e.Callee, "log.") || strings.HasPrefix(e.Callee, "(*log.") || strings.HasPrefix(e.Callee, "log/slog.") || strings.HasPrefix(e.Callee, "(*log/slog.") {
+		return true
+	}
 	return pureNames[e.Method]
 }
 
